@@ -66,6 +66,9 @@ type Client struct {
 	// SendRawTransaction calls (one entry consumed per call). "" or exhausted:
 	// honest node behaviour.
 	SendAnswers []string
+	// BeforeSend, if set, observes every SendRawTransaction call before the
+	// node sees the transaction (crash-before-broadcast faults).
+	BeforeSend func(tx *wire.MsgTx)
 	// Sends records every SendRawTransaction call.
 	Sends []SendRec
 	// Calls counts calls per method; Fired counts injected failures.
@@ -290,6 +293,9 @@ func (c *Client) SendRawTransaction(tx *wire.MsgTx, allowHighFees bool) (*chainh
 	c.mu.Lock()
 	defer c.mu.Unlock()
 	c.Calls["SendRawTransaction"]++
+	if c.BeforeSend != nil {
+		c.BeforeSend(tx)
+	}
 	id := tx.TxHash()
 	forced := ""
 	if len(c.SendAnswers) > 0 {
